@@ -1018,6 +1018,17 @@ class Interpreter:
         return ast.dump(self.to_ast())
 
 
+def qualname_expr(qualname: str) -> TupleType[str, ast.expr]:
+    """Since protocol 4 a global can be named by a dotted qualified name (e.g. a nested class
+    `Outer.Inner`). Returns the name that has to be imported (`Outer`) and the expression that
+    evaluates to the object (`Outer.Inner`); `from module import Outer.Inner` is not valid Python."""
+    first, *rest = qualname.split(".")
+    node: ast.expr = ast.Name(first, ast.Load())
+    for part in rest:
+        node = ast.Attribute(node, part, ast.Load())
+    return first, node
+
+
 class Proto(NoOp):
     name = "PROTO"
 
@@ -1057,17 +1068,18 @@ class Global(Opcode):
 
     def run(self, interpreter: Interpreter):
         module, attr = self.module, self.attr
+        imported_name, reference = qualname_expr(attr)
         if module in ("__builtin__", "__builtins__", "builtins"):
             # no need to emit an import for builtins!
             pass
         else:
             if sys.version_info < (3, 9):
                 # workaround for a bug in astunparse
-                alias = ast.alias(attr, asname=None)
+                alias = ast.alias(imported_name, asname=None)
             else:
-                alias = ast.alias(attr)
+                alias = ast.alias(imported_name)
             interpreter.module_body.append(ast.ImportFrom(module=module, names=[alias], level=0))
-        interpreter.stack.append(ast.Name(attr, ast.Load()))
+        interpreter.stack.append(reference)
 
     def encode(self) -> bytes:
         return f"c{self.module}\n{self.attr}\n".encode()
@@ -1083,17 +1095,21 @@ class StackGlobal(NoOp):
             module = module.value
         if isinstance(attr, ast.Constant):
             attr = attr.value
+        if isinstance(attr, str):
+            imported_name, reference = qualname_expr(attr)
+        else:
+            imported_name, reference = attr, ast.Name(attr, ast.Load())
         if module in ("__builtin__", "__builtins__", "builtins"):
             # no need to emit an import for builtins!
             pass
         else:
             if sys.version_info < (3, 9):
                 # workaround for a bug in astunparse
-                alias = ast.alias(attr, asname=None)
+                alias = ast.alias(imported_name, asname=None)
             else:
-                alias = ast.alias(attr)
+                alias = ast.alias(imported_name)
             interpreter.module_body.append(ast.ImportFrom(module=module, names=[alias], level=0))
-        interpreter.stack.append(ast.Name(attr, ast.Load()))
+        interpreter.stack.append(reference)
 
 
 class Inst(StackSliceOpcode):
@@ -1114,18 +1130,19 @@ class Inst(StackSliceOpcode):
 
     def run(self, interpreter: Interpreter, stack_slice: List[ast.expr]):
         module, classname = self.module, self.cls
+        imported_name, reference = qualname_expr(classname)
         if module in ("__builtin__", "__builtins__", "builtins"):
             # no need to emit an import for builtins!
             pass
         else:
             if sys.version_info < (3, 9):
                 # workaround for a bug in astunparse
-                alias = ast.alias(classname, asname=None)
+                alias = ast.alias(imported_name, asname=None)
             else:
-                alias = ast.alias(classname)
+                alias = ast.alias(imported_name)
             interpreter.module_body.append(ast.ImportFrom(module=module, names=[alias], level=0))
         args = ast.Tuple(tuple(stack_slice))
-        call = ast.Call(ast.Name(classname, ast.Load()), list(args.elts), [])
+        call = ast.Call(reference, list(args.elts), [])
         var_name = interpreter.new_variable(call)
         interpreter.stack.append(ast.Name(var_name, ast.Load()))
 
